@@ -333,51 +333,78 @@ def run_suite(pid, sname, spec, tier, seed, rundir):
     ms = spec.get("model_suite", hs)
     if ms != hs:
         sh("sed -i 's/^[^\t]*\t/%s\t/' %s" % (ms, cases))
-    run_model(cases, model)
+    # compare in blocks (the thorough tiers run tens of millions of cases): model on a block, sharded
+    # over the cores, then the comparator on that block; nothing but the mismatches is kept
+    import itertools
     t1 = time.time()
-    ires = read_results(impl)
-    mres = read_results(model)
-    if raced is not None:
-        # the harness died on the case it had announced last: that case raced
-        last = None
-        with open(cases, "r", errors="replace") as f:
-            for line in f:
-                parts = line.rstrip("\n").split("\t", 2)
-                if len(parts) == 3:
-                    last = parts[1]
-        if last is not None and last not in ires:
-            ires[last] = "RACE " + raced.replace("\n", " / ")
     n = 0
     nontrivial = set()
     samples = []
     cmpf = spec["cmp"]
     ntf = spec.get("nontrivial", lambda payload, impl, model: True)
-    with open(cases, "r", errors="replace") as f:
-        for line in f:
-            parts = line.rstrip("\n").split("\t", 2)
-            if len(parts) < 3:
-                continue
-            _, cid, payload = parts
-            n += 1
-            iv = ires.get(cid)
-            mv = mres.get(cid)
-            if iv is None or mv is None:
-                mismatches.append(dict(kind="broken", component="missing-result:" + sname, payload=payload,
-                                       detail="impl=%r model=%r" % (iv, mv), suite=sname, case_id=cid))
-                continue
-            if iv == "hang":
-                m = dict(kind="violation", detail="the call did not return within the watchdog limit (non-termination) on this input")
-            elif iv.startswith("not-run"):
-                continue
+    BLOCK = 1000000
+    last_missing = None
+    with open(cases, "r", errors="replace") as fc, open(impl, "r", errors="replace") as fi:
+        bno = 0
+        while True:
+            cl = list(itertools.islice(fc, BLOCK))
+            if not cl:
+                break
+            il = list(itertools.islice(fi, len(cl)))
+            bcases = os.path.join(rundir, "%s.block%d.cases" % (sname, bno))
+            bmodel = os.path.join(rundir, "%s.block%d.model" % (sname, bno))
+            with open(bcases, "w") as f:
+                f.writelines(cl)
+            run_model(bcases, bmodel)
+            mres = read_results(bmodel)
+            ires = {}
+            for line in il:
+                line = line.rstrip("\n")
+                if line:
+                    k, _, r = line.partition("\t")
+                    ires[k] = r
+            if bno > 0 or len(cl) == BLOCK:
+                os.remove(bcases)
+                os.remove(bmodel)
             else:
-                m = cmpf(payload, iv, mv)
-            if m is not None:
-                m.update(suite=sname, payload=payload, case_id=cid, impl=iv[:4000], model=mv[:4000])
-                mismatches.append(m)
-            if ntf(payload, iv, mv):
-                nontrivial.add(hashlib.md5(payload.encode()).digest())
-            if len(samples) < 3 or (n % 9973 == 0 and len(samples) < 8):
-                samples.append(dict(suite=sname, input=payload[:300], impl=iv[:300], model=mv[:300]))
+                os.replace(bmodel, model)
+                os.remove(bcases)
+            bno += 1
+            for line in cl:
+                parts = line.rstrip("\n").split("\t", 2)
+                if len(parts) < 3:
+                    continue
+                _, cid, payload = parts
+                n += 1
+                iv = ires.get(cid)
+                mv = mres.get(cid)
+                if iv is None and raced is not None:
+                    last_missing = (cid, payload, mv)      # the harness died on the case it had announced last
+                    continue
+                if iv is None or mv is None:
+                    mismatches.append(dict(kind="broken", component="missing-result:" + sname, payload=payload,
+                                           detail="impl=%r model=%r" % (iv, mv), suite=sname, case_id=cid))
+                    continue
+                if iv == "hang":
+                    m = dict(kind="violation", detail="the call did not return within the watchdog limit (non-termination) on this input")
+                elif iv.startswith("not-run"):
+                    continue
+                else:
+                    m = cmpf(payload, iv, mv)
+                if m is not None:
+                    m.update(suite=sname, payload=payload, case_id=cid, impl=iv[:4000], model=mv[:4000])
+                    mismatches.append(m)
+                if ntf(payload, iv, mv):
+                    nontrivial.add(hashlib.md5(payload.encode()).digest()[:8])
+                if len(samples) < 3 or (n % 9973 == 0 and len(samples) < 8):
+                    samples.append(dict(suite=sname, input=payload[:300], impl=iv[:300], model=mv[:300]))
+    if raced is not None and last_missing is not None:
+        cid, payload, mv = last_missing
+        iv = "RACE " + raced.replace("\n", " / ")
+        m = cmpf(payload, iv, mv or "")
+        if m is not None:
+            m.update(suite=sname, payload=payload, case_id=cid, impl=iv[:4000], model=(mv or "")[:4000])
+            mismatches.append(m)
     try:
         st = json.load(open(stats))
     except Exception:
